@@ -12,7 +12,8 @@ def tasks(tier):
     from props.mandoline_parents import parent_tasks
     from props.mandoline_boxes import box_tasks
     from props.mandoline_parents import names_tasks
-    return kernel_tasks("C08", ["expand"]) + parent_tasks("C08", 2) + box_tasks("C08", ["plate"]) + names_tasks("C08")
+    return kernel_tasks("C08", ["expand"]) + parent_tasks("C08", 2) + box_tasks("C08", ["plate"]) + names_tasks("C08") + \
+        __import__("props.mandoline_parents", fromlist=["aux_tasks"]).aux_tasks("C08")
 
 
 def canaries(tier):
